@@ -1,9 +1,63 @@
-# Claims table, exec'd by gen_manifest.py.
-TB = "Trusted: Go type checker, x/tools go/ssa + call graph, the frozen oracle tables inside gribilint; assumes mutexes are the only synchronisation of guarded fields and that reflection-based dependencies do not touch server/RIB/client structs."
+# Claims table, exec'd by gen_manifest.py. One entry per claimed property.
+TB = ("Trusted: the Go type checker, x/tools go/ssa + VTA call graph, and the frozen oracle tables inside gribilint "
+      "(guard table, thread-root/MHP table, expected decision tables, setter rows — DESIGN.md appendix A). "
+      "The check analyses /repo's source and executes none of it; it decides the named structural clauses only, "
+      "not the behaviour over histories/schedules, which is listed as 'not decided' in the evidence.")
 
+claim("C01", "AST path enumeration with finite-domain feasibility (dominance / no-trace obligations) + typed key-provenance lint",
+      "Decides necessary structural conditions of the fold property on every path of the anchored functions: delete-before-merge in every install helper (a replace is total), wire-derived keys never narrowed without validation or a range test, no 'not done' return after the install/remove step and 'done' only after it, DELETE of a missing key is a success on its own table/key, explicit REPLACE requires an installed entry, RIB verdict → AFTResult mapping. Does not decide ygot merge semantics or the fold over concrete histories.",
+      TB, "DESIGN.md §3 C01")
+claim("C02", "AST path enumeration (gate dominance, only-fail-inside loops) + decision-table extraction + sibling agreement",
+      "Decides: the resolvability gate checkFn(Add, validated candidate)==(true,nil) dominates every install in the five AddXXX; every holder is wired with the RIB's check (New/AddNetworkInstance agree); RIB.checkFn dispatch table; canResolve's per-kind shape (own-instance member lookup, named-or-own group lookup, zero ids/unknown instance fatal, backup never read); after every install the operation leaves the pending set and all held operations are retried; hold ⇔ forward references allowed. Does not decide cascades on concrete dependency graphs.",
+      TB, "DESIGN.md §3 C02")
+claim("C03", "mutation-site census + decision tables + per-path reference-counter event matching + VTA who-may-call",
+      "Decides the inductive step of the counter invariant at every mutation site and the completeness of the site list: every table mutation is an audited install/remove/flush helper with audited callers; install/replace adjusts references exactly on the installed branch with the replaced entry of the same call; handleReferences' table over all valuations; DeleteEntry and Flush release exactly the removed entry's target/members; canDelete's table; counter primitives' shape; only audited code calls the primitives. Does not decide counter values on concrete histories.",
+      TB, "DESIGN.md §3 C03")
+claim("C04", "decision-table extraction with exhaustive valuation comparison + snapshot provenance + who-may-call",
+      "Decides: checkElectionForModify equals the specified table on all valuations of its atoms (ids compared as 128-bit order types); modifyEntry calls the RIB only in the (proceed, nil) cell and every rejecting cell is effect-free; doModify hands one locked election snapshot to every operation; only modifyEntry/Server.Flush call the RIB mutators inside the server. Does not decide interleavings between snapshot and install.",
+      TB, "DESIGN.md §3 C04")
+claim("C05", "decision-table extraction over order-type atoms + lockset analysis (write needs exclusive mode) + store census",
+      "Decides: isNewMaster is lexicographic on all 18 order-type classes of id pairs; every uint128.New takes (lo,hi) of one id and no stray word comparisons exist; runElection's table (preconditions effect-free, stores only on the new-master branch, reply carries the stored id); the compare-and-set holds elecMu exclusively; only runElection writes the election state. The running-maximum over histories follows by induction (DESIGN.md), not mechanised.",
+      TB, "DESIGN.md §3 C05")
 claim("C06", "AST structural path enumeration (exactly-one / paired-event obligations) + typed composite-literal census",
       "Decides, for all paths of the anchored functions: exactly one reply per operation in doModify; RIB_PROGRAMMED then (only under FIB ack) FIB_PROGRAMMED per ok and FAILED per fail with the result's id; exactly one verdict-or-hold per install attempt and rmPending with every terminal verdict; owner-less held operations (known finding). Does not decide eventual delivery or hand-over timing.",
       TB, "DESIGN.md §3 C06")
-
-for p in ["C01","C02","C03","C04","C05","C07","C08","C09","C10","C11","C12","C13","C14","C15","C16","C17","C18","C19"]:
-    NA[p] = "rule set not armed yet in this commit (build in progress; see DESIGN.md §3 for the planned structural clauses)"
+claim("C07", "kind-registry pairing rules over the typed AST (filter ↔ table ↔ converter ↔ oneof) + schema-tag comparison",
+      "Decides the structural part only: GetRIB's five blocks pair AFTType, table, converter and oneof correctly and tag the holder's name; ALL expands to exactly the five; doGet's accepted set and scope; each Concrete*Proto strips exactly the schema path of its table (from aft/oc.go tags) and returns the entry's own key; FromGetResponses files each kind in its own table and instance; Get forwards every message. Payload fidelity through protomap/ygot is NOT decided (reflective third-party code).",
+      TB, "DESIGN.md §3 C07")
+claim("C08", "decision-table extraction (incl. type-switch atoms) + key-presence path rule + lockset",
+      "Decides: checkFlushRequest and Server.Flush equal their specified tables on all valuations (codes and FlushResponseError reasons, instance selection, OK ⇔ no RIB error); RIB.Flush removes all five tables on the holder of the current list element; flush removal helpers only get keys known present; every flushed reference is released; the election id is read under its lock. Does not decide RIB contents on concrete RIBs.",
+      TB, "DESIGN.md §3 C08")
+claim("C09", "decision-table extraction for every transition function of the Modify session + field-coverage and pairing rules",
+      "Decides every transition function for every input class: the receive loop's dispatch/termination table, checkParams, updateParams, runElection preconditions, doModify preconditions (status code + reason per cell, rejecting cells effect-free), consistency against every other session, clientParams field coverage, session footprint removed on every exit. Does not decide the product state machine over several sessions.",
+      TB, "DESIGN.md §3 C09")
+claim("C10", "SSA lockset: blocking-operation-under-lock + lock pairing; channel-use classification (lost stop signal); VTA must-not-reach",
+      "Decides: nothing can block forever on a channel while a server/RIB lock is held (directly or in callees); a polled stop channel is closed by its owner on every exit; teardown and the Get RPC reach no state-changing function; locks are released on every path; the session table is cleaned on every exit. Does not decide promptness or transport behaviour.",
+      TB, "DESIGN.md §3 C10")
+claim("C11", "SSA must/may lockset with caller-requirement summaries (guarded-by), lock-order graph per may-happen-in-parallel group, pairing, blocking-under-lock",
+      "Decides for all schedules what is visible in lock structure: every access to the six guarded server/RIB state groups reachable from the RPC roots holds its mutex in a sufficient mode (directly or in all callers); no lock-order cycle with an exclusive acquisition; no return holding a lock; no blocking under lock; installed entries are not modified in place. Does not decide races on unguarded memory, channel happens-before, or absence of panics.",
+      TB, "DESIGN.md §3 C11")
+claim("C12", "AST path enumeration (guard dominance, validate-before-mutate), kind-exhaustiveness, decision tables, call-graph recover containment",
+      "Decides: nil-entry guards dominate first use in all AddXXX/DeleteXXX; schema validation dominates every install and candidateRIB validates on every success path; zero ids/empty groups/unknown instances are fatal (canResolve/canDelete/checkCandidate tables); oneof switches are exhaustive or rejecting; modifyEntry/doModify/doGet reject malformed input in-band before touching the RIB; the reflective conversion runs under a deferred recover on every chain from the RPC roots. Does not decide the space of all protobufs.",
+      TB, "DESIGN.md §3 C12")
+claim("C13", "decision-table extraction (clearPendingOp, AwaitConverged) + path rules (register-before-send, one dequeue decision per result) + client lockset",
+      "Decides: clearPendingOp's dequeue table over all (pending, status, ack-mode) valuations; results carry id/status of the AFTResult and type/key of the pending op for all five kinds; operations are registered pending before the request can be sent; multi-kind responses rejected before any effect; converged ⇔ nothing queued ∧ nothing pending (all three kinds); AwaitConverged's table in one exclusive section; guarded-by and lock order for the client locks. Does not decide behaviour against adversarial servers over time.",
+      TB, "DESIGN.md §3 C13")
+claim("C14", "SSA blocking-under-lock for client locks + lifecycle pairing rules + field-coverage of Reset",
+      "Decides: no channel operation can block forever under a client lock (queueing gives up when the sender exits); goroutines are counted before start, signal Done/wait-group/exit channel on every exit; disconnect waits; stream errors are recorded before the loop exits; Reset reassigns/drains every transient field (new fields must be classified); lock order for Reset/Close/StartSending ∥ Q. Does not decide bounded time or gRPC behaviour.",
+      TB, "DESIGN.md §3 C14")
+claim("C15", "per-loop path enumeration with side (intended/target) provenance + bucket pairing + builder shape",
+      "Decides: diff has an add/replace loop and a delete loop for each of the five tables with the right lookup direction, builder, method and bucket, exactly one id increment per operation, silence ⇔ DeepEqual; both RIBs' network instances are walked; builders stamp id/instance/method/converted payload. Does not decide that applying the operations converges (an execution).",
+      TB, "DESIGN.md §3 C15")
+claim("C16", "AST path enumeration (notify-after-mutate) + mutation-site census + provenance of hook propagation and snapshots",
+      "Decides: every AddXXX/DeleteXXX and flush removal helper calls postChangeHook(op, ts, own name, affected entry) after the mutation on success paths; no unaccounted mutation site; the hook is remembered at RIB level and copied into every later holder; resolved-entry notifications are sent once per successful top-level add/delete with the right table constant and key, carrying only DeepCopy snapshots. Does not decide the fold of notifications over histories.",
+      TB, "DESIGN.md §3 C16")
+claim("C17", "kind-exhaustiveness + found-flag path rule + decision table of ignore options + index/lookup pairing",
+      "Decides: every kind switch in chk covers all five kinds or fails; found-flag helpers pass ⇔ the comparison succeeded for some candidate (Fatal otherwise); the IgnoreFields list equals its specified table over all option valuations and names real fields; count helpers measure the right list and accept nil only for 0; the cached checker delegates every verdict to HasResult on the candidate indexed by the want's own key, or fails. Does not decide cmp/proto equality semantics.",
+      TB, "DESIGN.md §3 C17")
+claim("C18", "SSA store-provenance signatures compared with frozen per-method rows + decision table of id/election stamping + clone provenance",
+      "Decides per method: which protobuf fields each With*/Add* stores and from which parameter (43 rows), receiver returned; OpProto/EntryProto return proto.Clone of the builder's message with its instance/election id in the oneof of its kind; entriesToModifyRequest's table (explicit ids rejected, one increment before the id, stamp ⇔ connection ∧ elected ∧ entry has none); both election-id setters record the announced id; the three verbs use their own op type. Does not decide arbitrary builder programs.",
+      TB, "DESIGN.md §3 C18")
+claim("C19", "typed-AST registry rules over the TestSuite literal + clean-up pairing paths + election-counter interval rule + verdict reachability",
+      "Decides registry hygiene only: ack type ⇔ RequiresFIBACK for every suite entry, every exported test is registered, every test that programs entries flushes afterwards on non-fatal paths, every function leaves the shared election counter above the ids it announced and never uses counter-k where that can be 0, every registered test reaches a verdict not cut off by an unconditional Skip (one known finding). Actual pass/fail against any server is NOT decided.",
+      TB, "DESIGN.md §3 C19")
